@@ -66,8 +66,12 @@ def judge_layouts(case):
         L4 = build([incs])
         per = [sb.write(f'd/one{i}.yaml', f'!include {n}\n') for i, n in enumerate(names)]
         L5 = build(per)
+        # two levels of streams: a file whose documents are top-level includes, itself included (top-level / by a multi-document file)
+        L6 = build([sb.write('d/outer.yaml', '!include inc_each.yaml\n')])
+        L7 = build([sb.write('d/outer2.yaml', '!include [' + ', '.join(f'one{i}.yaml' for i in range(len(names))) + ']\n')])
         ref = plain_of(L1)
-        for name, L in (('one multi-document source', L2), ("a top-level '!include [f1..fn]'", L3), ('n top-level includes in one file', L4), ('n sources each a top-level include', L5)):
+        for name, L in (('one multi-document source', L2), ("a top-level '!include [f1..fn]'", L3), ('n top-level includes in one file', L4), ('n sources each a top-level include', L5),
+                        ('an included file whose documents are top-level includes', L6), ("a top-level '!include [..]' of files that are top-level includes", L7)):
             if plain_of(L) != ref:
                 return dict(texts=texts, reason=f'{name} builds a different config than the n separate sources', separate=repr(ref)[:300], other=repr(plain_of(L))[:300])
         if L1[0] == 'ok':
@@ -80,6 +84,11 @@ def judge_layouts(case):
         nested = sb.write('d/nested.yaml', 'k: !include [' + ', '.join(names) + ']\nq: 1\n')
         N = build([nested])
         if L1[0] == 'ok':
+            # the same through a multi-document file whose documents are top-level includes
+            Nm = build([sb.write('d/nested_m.yaml', 'k: !include inc_each.yaml\nq: 1\n')])
+            if Nm[0] != 'ok' or base.typed(base.to_plain(Nm[1])) != base.typed({'k': base.to_plain(L1[1]), 'q': 1}):
+                return dict(texts=texts, reason="'key: !include f' where f is a multi-document file of top-level includes is not the merged content of the files placed under key",
+                            got=(repr(base.to_plain(Nm[1]))[:300] if Nm[0] == 'ok' else repr(Nm[:2])[:300]))
             if N[0] != 'ok':
                 return dict(texts=texts, reason="'key: !include [..]' failed although the files merge", error=N[0], message=N[1][:200])
             got = base.to_plain(N[1])
